@@ -54,6 +54,16 @@ def exa(a):
     return [exa(x) for x in a]
 
 
+DTYPES = {'float64': np.float64, 'float32': np.float32, 'int64': np.int64, 'int32': np.int32}
+FLAGS = {'np.False_': np.False_, 'np.True_': np.True_}
+
+
+def flag_of(c):
+    """how the boolean option is spelled by the caller (falsy / truthy non-bool values)"""
+    v = c.get('eng_value', c['eng'])
+    return FLAGS.get(v, v) if isinstance(v, str) else v
+
+
 def snapshot(a):
     return a.tobytes(), a.shape, str(a.dtype)
 
@@ -69,11 +79,13 @@ def run_case(c, F, femio):
     r = {'id': c['id']}
     del EIGH_LOG[:]
     if k == 'sym':
-        a = arr(c['a'])
+        a = arr(c['a']).astype(DTYPES[c.get('dtype', 'float64')])
+        if c.get('tile'):
+            a = np.tile(a, (c['tile'], 1)) + (np.arange(c['tile'] * len(a)) % 7)[:, None].astype(a.dtype)
         order = c['order']
         s0 = snapshot(a)
-        kw = {'from_engineering': c['eng']}
-        kw2 = {'to_engineering': c['eng']}
+        kw = {'from_engineering': flag_of(c)}
+        kw2 = {'to_engineering': flag_of(c)}
         if order is not None:
             kw['order'] = list(order) if c.get('order_as') != 'ndarray' else np.array(order)
             inv = [int(x) for x in np.argsort(order)]
@@ -81,32 +93,43 @@ def run_case(c, F, femio):
             r['inv'] = inv
         m = F.convert_array2symmetric_matrix(a, **kw)
         r['a_unchanged'] = snapshot(a) == s0
+        r['same_call_twice'] = bool(np.array_equal(m, F.convert_array2symmetric_matrix(a, **kw)))
         r['m_shape'] = list(m.shape)
-        r['m'] = exa(m)
+        r['m_dtype'] = str(m.dtype)
+        keep = slice(0, 3) if c.get('tile') else slice(None)
+        r['m'] = exa(m[keep])
         m_in = np.array(m, copy=True)
         s1 = snapshot(m_in)
         b = F.convert_symmetric_matrix2array(m_in, **kw2)
         r['m_unchanged'] = snapshot(m_in) == s1
         r['b_shape'] = list(b.shape)
-        r['b'] = exa(b)
+        r['b'] = exa(b[keep])
+        if c.get('tile'):
+            r['a_head'] = exa(a[keep])
+            r['all_rows_roundtrip'] = bool(np.array_equal(b, a))
+            r['all_rows_symmetric'] = bool(np.array_equal(m, np.transpose(m, (0, 2, 1))))
         # the other composition: matrix -> array -> matrix
         b_in = np.array(b, copy=True)
         m2 = F.convert_array2symmetric_matrix(b_in, **kw)
         r['m_again_equal'] = bool(np.array_equal(m2, m))
     elif k == 'pc':
-        a = arr(c['a'])
+        a = arr(c['a']).astype(DTYPES[c.get('dtype', 'float64')])
         s0 = snapshot(a)
-        kw = {'from_engineering': c['eng']}
+        kw = {'from_engineering': flag_of(c)}
         if c['order'] is not None:
             kw['order'] = list(c['order'])
         vals, dirs, vecs = F.calculate_principal_components(a, **kw)
         r['a_unchanged'] = snapshot(a) == s0
         r['eigh'] = take_eigh()
+        r['a_as_given'] = exa(a)
         r['vals'], r['dirs'], r['vecs'] = exa(vals), exa(dirs), exa(vecs)
         v_in, d_in = np.array(vals, copy=True), np.array(dirs, copy=True)
         sv, sd = snapshot(v_in), snapshot(d_in)
         mats = F.calculate_symmetric_matrices_from_eigens(v_in, d_in)
-        reb = F.calculate_array_from_eigens(v_in, d_in, to_engineering=c['eng'])
+        reb = F.calculate_array_from_eigens(v_in, d_in, to_engineering=flag_of(c))
+        again = F.calculate_principal_components(a, **kw)
+        take_eigh()
+        r['same_call_twice'] = bool(np.array_equal(again[0], vals) and np.array_equal(again[1], dirs))
         r['eig_unchanged'] = snapshot(v_in) == sv and snapshot(d_in) == sd
         r['mats'] = exa(mats)
         r['rebuilt'] = exa(reb)
